@@ -840,3 +840,68 @@ def C_idx_extend(repo, clause):
     if not any(not o.ok for o in obs):
         floor("Cidx", "typed index obligations in Atoms.extend", len(obs), 9)
     return obs
+
+
+def C_quaternion_layout(repo, clause):
+    """Rotation construction: SciPy's Rotation.from_quat takes (x, y, z, w) - vector part first, scalar last - and a
+    rotation by `angle` about a unit axis is (axis*sin(angle/2), cos(angle/2)).  Both helpers must build exactly that,
+    with the SAME half angle in both components, from a normalised axis."""
+    obs = []
+    for q in ("quaternion_from_two_vectors", "quaternion_from_two_vectors_around_axis"):
+        fn = repo.fn(q)
+        calls = [c for c in calls_in(fn) if call_name(c) == "from_quat"]
+        if len(calls) != 1:
+            raise AnalysisError("Cquat: %s has %d from_quat calls" % (q, len(calls)))
+        c = calls[0]
+        arg = expand(fn, c.args[0]) if c.args else None
+        recognised = isinstance(arg, (ast.List, ast.Tuple)) and len(arg.elts) == 2
+        ok = False
+        detail = "argument of from_quat is not a [*vector, scalar] literal"
+        positive = False
+        if recognised:
+            v, s_ = arg.elts
+            if isinstance(v, ast.Starred) and not isinstance(s_, ast.Starred):
+                ve = v.value
+                sin_part = [x for x in ast.walk(ve) if isinstance(x, ast.Call) and call_name(x) in ("sin", "cos")]
+                cos_part = s_ if isinstance(s_, ast.Call) and call_name(s_) in ("sin", "cos") else None
+                if len(sin_part) == 1 and cos_part is not None:
+                    same_angle = nf(sin_part[0].args[0]) == nf(cos_part.args[0])
+                    right_fn = call_name(sin_part[0]) == "sin" and call_name(cos_part) == "cos"
+                    half = isinstance(cos_part.args[0], ast.BinOp) and isinstance(cos_part.args[0].op, ast.Div) and const_value(cos_part.args[0].right) == 2
+                    ok = same_angle and right_fn and half
+                    positive = True
+                    detail = "quaternion = [*(axis * sin(%s)), cos(%s)]: vector part uses sin=%s, scalar part uses cos=%s, same half angle=%s, half angle=%s" % (
+                        ast.unparse(sin_part[0].args[0]), ast.unparse(cos_part.args[0]), call_name(sin_part[0]) == "sin", call_name(cos_part) == "cos", same_angle, half)
+            elif isinstance(s_, ast.Starred):
+                positive = True
+                detail = "scalar part comes FIRST: SciPy's from_quat expects (x, y, z, w)"
+        obs.append(Ob("Cquat", clause, fn, c, ok, detail, slot="layout:%s" % q, positive=positive))
+        # the axis is normalised before it is used
+        norms = [n for n in fn.own_nodes() if isinstance(n, ast.AugAssign) and isinstance(n.op, ast.Div) and isinstance(n.target, ast.Name)
+                 and isinstance(n.value, ast.Call) and call_name(n.value) == "norm" and ast.unparse(n.value.args[0]) == n.target.id]
+        ok_n = len(norms) == 1 and fn.cfg.reaches(norms[0], fn.stmt_of(c))
+        obs.append(Ob("Cquat", clause, fn, norms[0] if norms else fn.node, ok_n, "the rotation axis is divided by its norm before the quaternion is built", slot="axis-normalised:%s" % q))
+        # the angle comes from a clipped dot product of unit vectors
+        acs = [x for x in calls_in(fn) if call_name(x) == "arccos"]
+        ok_a = len(acs) == 1 and any(isinstance(y, ast.Call) and call_name(y) == "max" for y in ast.walk(acs[0])) and any(isinstance(y, ast.Call) and call_name(y) == "min" for y in ast.walk(acs[0]))
+        clip = len(acs) == 1 and any(isinstance(y, ast.Call) and call_name(y) == "clip" for y in ast.walk(acs[0]))
+        obs.append(Ob("Cquat", clause, fn, acs[0] if acs else fn.node, ok_a or clip, "the angle is arccos of the dot product clipped to [-1, 1] (rounding cannot produce NaN)", slot="angle-clipped:%s" % q))
+    # farthest-from-axis: align the axis with a coordinate axis k and measure in the two OTHER coordinates
+    fn = repo.fn("position_index_farthest_from_axis")
+    qc = [c for c in calls_in(fn) if call_name(c) == "quaternion_from_two_vectors"]
+    ok = False
+    detail = "alignment call not found"
+    positive = False
+    if len(qc) == 1 and len(qc[0].args) == 2 and isinstance(qc[0].args[1], (ast.List, ast.Tuple)):
+        tgt = [const_value(x) for x in qc[0].args[1].elts]
+        k = [i for i, v in enumerate(tgt) if v]
+        sl = [s_ for s_ in fn.own_nodes() if isinstance(s_, ast.Subscript) and isinstance(s_.slice, ast.Tuple) and len(s_.slice.elts) == 2 and isinstance(s_.slice.elts[1], ast.Slice)]
+        if len(k) == 1 and len(sl) == 1:
+            lo, hi = const_value(sl[0].slice.elts[1].lower), const_value(sl[0].slice.elts[1].upper)
+            lo = 0 if lo is None else lo
+            cols = set(range(lo, 3 if hi is None else hi))
+            ok = cols == {0, 1, 2} - {k[0]}
+            positive = True
+            detail = "axis is rotated onto coordinate %d; distance from the axis is measured in coordinates %s" % (k[0], sorted(cols))
+    obs.append(Ob("Cquat", clause, fn, qc[0] if qc else fn.node, ok, detail, slot="farthest-from-axis-columns", positive=positive))
+    return obs
